@@ -276,6 +276,17 @@ theorem handleDisconnect_P (c : Cfg) (hco : CloseOk c) (s : St) (e : AExn) (rc :
     Post c s (handleDisconnect c s e rc).1 (handleDisconnect c s e rc).2.exn? True
       ((handleDisconnect c s e rc).1.hasErrored = true) := by
   unfold handleDisconnect
+  by_cases hg : (Gen.appCloseGuard && !s.keepRunning && e != .ki) = true
+  · -- the application has closed: straight to teardown, nothing reported
+    simp only [hg, ↓reduceIte]
+    rcases teardown_P c hco s none hp with td | ⟨q, rok, hhe, a, hca⟩
+    · left; exact td
+    · right
+      refine ⟨onCloseEv c a, hca, ?_, Or.inr ⟨q, ⟨[], a, by simp, rfl⟩, trivial⟩⟩
+      intro _
+      refine ⟨by rw [hhe, errsIn_onCloseEv]; simp, by rw [rok]; simp [R.exn?]⟩
+  simp only [hg, Bool.false_eq_true, ↓reduceIte]
+  unfold handleDisconnectBody
   simp only [gen_dcErr, gen_dcStops, ↓reduceIte]
   have f1 := frame_stopPing { s with hasErrored := true }
   generalize stopPing { s with hasErrored := true } = s1 at f1 ⊢
